@@ -3,6 +3,173 @@ From Coq Require Import ZArith List Bool Arith Lia.
 From IBL.C04 Require Import Model.
 Import ListNotations.
 
+(* ---- decidable equalities ---------------------------------------------------- *)
+Lemma etype_eqb_eq : forall a b, etype_eqb a b = true <-> a = b.
+Proof. destruct a, b; cbn; split; intros; congruence. Qed.
+Lemma fkind_eqb_eq : forall a b, fkind_eqb a b = true <-> a = b.
+Proof. destruct a, b; cbn; split; intros; congruence. Qed.
+Lemma owner_eqb_eq : forall a b, owner_eqb a b = true <-> a = b.
+Proof.
+  destruct a, b; cbn; split; intros H; try congruence.
+  - apply andb_true_iff in H as [H1 H2]. apply Nat.eqb_eq in H1. apply etype_eqb_eq in H2. congruence.
+  - inversion H; subst. rewrite Nat.eqb_refl. cbn. apply etype_eqb_eq; reflexivity.
+Qed.
+Lemma path_eqb_eq : forall a b, path_eqb a b = true <-> a = b.
+Proof.
+  destruct a, b; cbn; split; intros H; try congruence.
+  - apply Nat.eqb_eq in H. congruence.
+  - inversion H. apply Nat.eqb_refl.
+  - apply andb_true_iff in H as [H1 H2]. apply owner_eqb_eq in H1. apply fkind_eqb_eq in H2. congruence.
+  - inversion H; subst. apply andb_true_iff. split; [apply owner_eqb_eq | apply fkind_eqb_eq]; reflexivity.
+Qed.
+Lemma path_eqb_refl : forall a, path_eqb a a = true.
+Proof. intros; apply path_eqb_eq; reflexivity. Qed.
+Lemma path_eqb_neq : forall a b, a <> b -> path_eqb a b = false.
+Proof. intros a b H. destruct (path_eqb a b) eqn:E; [apply path_eqb_eq in E; contradiction | reflexivity]. Qed.
+
+Lemma upd_same : forall fs p v, upd fs p v p = v.
+Proof. intros. unfold upd. rewrite path_eqb_refl. reflexivity. Qed.
+Lemma upd_other : forall fs p v q, q <> p -> upd fs p v q = fs q.
+Proof. intros. unfold upd. rewrite path_eqb_neq; auto. Qed.
+
+Lemma present_true : forall fs p, present fs p = true <-> fs p <> Absent.
+Proof. intros. unfold present. destruct (fs p); cbn; split; intros; congruence. Qed.
+Lemma present_false : forall fs p, present fs p = false <-> fs p = Absent.
+Proof. intros. unfold present. destruct (fs p); cbn; split; intros; congruence. Qed.
+Lemma complete_true : forall fs p, complete fs p = true <-> fs p = Complete.
+Proof. intros. unfold complete. destruct (fs p); cbn; split; intros; congruence. Qed.
+
+(* ---- exec ------------------------------------------------------------------------ *)
+Lemma exec_app : forall l1 l2 rs,
+  exec (l1 ++ l2) rs =
+  match exec l1 rs with
+  | (rs1, None) => exec l2 rs1
+  | (rs1, Some e) => (rs1, Some e)
+  end.
+Proof.
+  induction l1 as [|s l1 IH]; intros l2 rs; cbn; [reflexivity|].
+  destruct (step_sem s rs); [apply IH | reflexivity].
+Qed.
+
+Lemma exec_app_ok : forall l1 l2 rs rs',
+  exec (l1 ++ l2) rs = (rs', None) ->
+  exists rs1, exec l1 rs = (rs1, None) /\ exec l2 rs1 = (rs', None).
+Proof.
+  intros l1 l2 rs rs' H. rewrite exec_app in H.
+  destruct (exec l1 rs) as [rs1 [e|]]; [discriminate|]. eauto.
+Qed.
+
+(* the state in which a run stops is the state after some error-free prefix *)
+Lemma exec_prefix : forall l rs rs' e,
+  exec l rs = (rs', e) -> exists c, (c <= length l)%nat /\ exec (firstn c l) rs = (rs', None).
+Proof.
+  induction l as [|s l IH]; intros rs rs' e H; cbn in H.
+  - inversion H; subst. exists 0%nat. split; [lia | reflexivity].
+  - destruct (step_sem s rs) as [rs1|e1] eqn:E.
+    + destruct (IH _ _ _ H) as [c [Hc Hx]]. exists (S c). split; [cbn; lia|].
+      cbn. rewrite E. exact Hx.
+    + inversion H; subst. exists 0%nat. split; [lia | reflexivity].
+Qed.
+
+(* ---- frames: which paths a step can modify ---------------------------------- *)
+Definition touches (s : step) (p : path) : bool :=
+  match s with
+  | SMkdir k => path_eqb p (PDir k)
+  | STrunc q | SCorrupt q | SUnlink q _ => path_eqb p q
+  | SAppendSh n e _ =>
+      match p with PFile (Shank k e') FBin => (k <? n)%nat && etype_eqb e e' | _ => false end
+  | SAppend21 _ => path_eqb p (PFile Lf21 FBin)
+  | SWriteMeta o => path_eqb p (PFile o FMeta)
+  | SVerify _ => false
+  | SCompBegin o => path_eqb p (PFile o FTmp)
+  | SCompEnd o => path_eqb p (PFile o FTmp) || path_eqb p (PFile o FCh)
+  | SRename o => path_eqb p (PFile o FTmp) || path_eqb p (PFile o FCbin)
+  | SDeleteOrig f => path_eqb p (PFile Orig f)
+  end.
+
+Lemma unlink_frame : forall rs q mok rs' p,
+  unlink rs q mok = Ok rs' -> path_eqb p q = false -> r_fs rs' p = r_fs rs p.
+Proof.
+  intros rs q mok rs' p H Hp. unfold unlink in H.
+  destruct (present (r_fs rs) q).
+  - inversion H; subst; cbn. unfold upd. rewrite Hp. reflexivity.
+  - destruct mok; inversion H; subst; reflexivity.
+Qed.
+
+Lemma step_frame : forall s rs rs' p,
+  step_sem s rs = Ok rs' -> touches s p = false -> r_fs rs' p = r_fs rs p.
+Proof.
+  intros s rs rs' p H Ht. destruct s; cbn in H, Ht.
+  - inversion H; subst; cbn. unfold upd. rewrite Ht. reflexivity.
+  - destruct (dir_ok _ _); inversion H; subst; cbn. unfold upd. rewrite Ht. reflexivity.
+  - inversion H; subst; cbn. destruct p as [k|o f]; [reflexivity|].
+    destruct o as [| |k e']; try reflexivity. destruct f; try reflexivity. rewrite Ht. reflexivity.
+  - inversion H; subst; cbn. unfold upd. rewrite Ht. reflexivity.
+  - destruct (present _ _); inversion H; subst; cbn. unfold upd. rewrite Ht. reflexivity.
+  - destruct (present _ _); inversion H; subst; cbn; [|reflexivity]. unfold upd. rewrite Ht. reflexivity.
+  - destruct (all_ap_complete _ _); inversion H; subst; reflexivity.
+  - eapply unlink_frame; eauto.
+  - destruct (present _ _); inversion H; subst; cbn. unfold upd. rewrite Ht. reflexivity.
+  - apply orb_false_iff in Ht as [H1 H2]. inversion H; subst; cbn. unfold upd. rewrite H1, H2. reflexivity.
+  - apply orb_false_iff in Ht as [H1 H2]. destruct (present _ _); inversion H; subst; cbn.
+    unfold upd. rewrite H1, H2. reflexivity.
+  - destruct (r_checked rs); [eapply unlink_frame; eauto | inversion H; subst; reflexivity].
+Qed.
+
+Lemma exec_frame : forall l rs rs' e p,
+  exec l rs = (rs', e) -> (forall s, In s l -> touches s p = false) -> r_fs rs' p = r_fs rs p.
+Proof.
+  induction l as [|s l IH]; intros rs rs' e p H Hall; cbn in H.
+  - inversion H; subst; reflexivity.
+  - destruct (step_sem s rs) as [rs1|e1] eqn:E.
+    + rewrite (IH _ _ _ _ H); [|intros; apply Hall; right; assumption].
+      eapply step_frame; eauto. apply Hall. left; reflexivity.
+    + inversion H; subst; reflexivity.
+Qed.
+
+(* only SVerify can set check_completed *)
+Definition is_verify (s : step) : bool := match s with SVerify _ => true | _ => false end.
+
+Lemma unlink_checked : forall rs q mok rs', unlink rs q mok = Ok rs' -> r_checked rs' = r_checked rs.
+Proof.
+  intros rs q mok rs' H. unfold unlink in H. destruct (present _ _).
+  - inversion H; reflexivity.
+  - destruct mok; inversion H; reflexivity.
+Qed.
+
+Lemma step_checked : forall s rs rs',
+  step_sem s rs = Ok rs' -> is_verify s = false -> r_checked rs' = r_checked rs.
+Proof.
+  intros s rs rs' H Hv. destruct s; cbn in H, Hv; try discriminate;
+    try (inversion H; subst; reflexivity);
+    try (destruct (dir_ok _ _); inversion H; subst; reflexivity);
+    try (destruct (present _ _); inversion H; subst; reflexivity).
+  - eapply unlink_checked; eauto.
+  - destruct (r_checked rs) eqn:Ec.
+    + rewrite <- Ec. eapply unlink_checked; eauto.
+    + inversion H; subst; exact Ec.
+Qed.
+
+Lemma exec_checked : forall l rs rs' e,
+  exec l rs = (rs', e) -> (forall s, In s l -> is_verify s = false) -> r_checked rs' = r_checked rs.
+Proof.
+  induction l as [|s l IH]; intros rs rs' e H Hall; cbn in H.
+  - inversion H; subst; reflexivity.
+  - destruct (step_sem s rs) as [rs1|e1] eqn:E.
+    + rewrite (IH _ _ _ H); [|intros; apply Hall; right; assumption].
+      eapply step_checked; eauto. apply Hall. left; reflexivity.
+    + inversion H; subst; reflexivity.
+Qed.
+
+(* check_completed never goes back to false within a run *)
+Lemma step_checked_mono : forall s rs rs',
+  step_sem s rs = Ok rs' -> r_checked rs = true -> r_checked rs' = true.
+Proof.
+  intros s rs rs' H Hc. destruct (is_verify s) eqn:Ev.
+  - destruct s; try discriminate. cbn in H. destruct (all_ap_complete _ _); inversion H; reflexivity.
+  - rewrite (step_checked _ _ _ H Ev). exact Hc.
+Qed.
+
 Lemma np1_noop : forall n w fs r k,
   r_target r <> TShank k -> input_state NP1 n fs (r_target r) = Present ->
   out_outcome (run_once NP1 n w fs r) = Status (-1) /\
@@ -11,4 +178,302 @@ Proof.
   intros n w fs r k _ Hin. unfold run_once. rewrite Hin.
   destruct (r_target r); cbn; auto.
   unfold input_state in Hin. destruct (negb _); discriminate.
+Qed.
+
+(* ====================================================================== *)
+(* Specification predicates                                                 *)
+(* ====================================================================== *)
+(* the original samples are on disk byte for byte, plain or compressed *)
+Definition orig_ok (fs : fsys) : Prop :=
+  fs (PFile Orig FBin) = Complete \/
+  (fs (PFile Orig FCbin) = Complete /\ fs (PFile Orig FCh) = Complete).
+(* shank k's split ap data (plain or compressed) and its metadata are complete *)
+Definition shank_ok (fs : fsys) (k : nat) : Prop :=
+  (fs (PFile (Shank k Ap) FBin) = Complete \/
+   (fs (PFile (Shank k Ap) FCbin) = Complete /\ fs (PFile (Shank k Ap) FCh) = Complete))
+  /\ fs (PFile (Shank k Ap) FMeta) = Complete.
+Definition shanks_ok (n : nat) (fs : fsys) : Prop := forall k, (k < n)%nat -> shank_ok fs k.
+Definition recoverable (kd : kind) (n : nat) (fs : fsys) : Prop :=
+  orig_ok fs \/ (kd = NP24 /\ shanks_ok n fs).
+Definition inv (kd : kind) (n : nat) (fs : fsys) : Prop :=
+  fs (PFile Orig FMeta) = Complete /\ fs (PFile Orig FBin) <> Partial /\ recoverable kd n fs.
+
+Ltac upd_simp :=
+  repeat (rewrite upd_same || (rewrite upd_other by congruence)).
+
+Lemma In_firstn : forall (A : Type) (x : A) c l, In x (firstn c l) -> In x l.
+Proof.
+  intros A x c. induction c as [|c IH]; intros l H; [destruct H|].
+  destruct l; [destruct H|]. cbn in H. destruct H; [left; assumption | right; apply IH; assumption].
+Qed.
+
+Lemma exec_cons_ok : forall s l rs rs',
+  exec (s :: l) rs = (rs', None) -> exists rs1, step_sem s rs = Ok rs1 /\ exec l rs1 = (rs', None).
+Proof.
+  intros s l rs rs' H. cbn in H. destruct (step_sem s rs) as [rs1|e]; [eauto | discriminate].
+Qed.
+
+Lemma forallb_flat_map : forall (A B : Type) (P : B -> bool) (g : A -> list B) l,
+  (forall x, In x l -> forallb P (g x) = true) -> forallb P (flat_map g l) = true.
+Proof.
+  intros A B P g. induction l as [|a l IH]; intros H; cbn; [reflexivity|].
+  rewrite forallb_app. rewrite H by (left; reflexivity). cbn. apply IH. intros; apply H; right; assumption.
+Qed.
+
+(* ---- shape of the NP2.4 steps before delete_NP24: they only concern shank folders --- *)
+Definition shank_step (s : step) : bool :=
+  match s with
+  | SMkdir _ | SAppendSh _ _ _ | SVerify _ => true
+  | STrunc (PFile (Shank _ _) _) | SCorrupt (PFile (Shank _ _) _)
+  | SUnlink (PFile (Shank _ _) _) _ => true
+  | SWriteMeta (Shank _ _) | SCompBegin (Shank _ _) | SCompEnd (Shank _ _) | SRename (Shank _ _) => true
+  | _ => false
+  end.
+
+Lemma shank_step_orig : forall s f, shank_step s = true -> touches s (PFile Orig f) = false.
+Proof.
+  intros s f H. destruct s; cbn in *; try reflexivity; try discriminate;
+    repeat match goal with
+           | p : path |- _ => destruct p
+           | o : owner |- _ => destruct o
+           end; cbn in *; try reflexivity; try discriminate.
+Qed.
+
+Lemma comp_steps_shape : forall ow k e, forallb shank_step (comp_steps ow (Shank k e)) = true.
+Proof. intros. destruct ow; reflexivity. Qed.
+
+Lemma prep24_shape : forall ow fs n, forallb shank_step (prep24 ow fs n) = true.
+Proof.
+  intros. unfold prep24. apply forallb_flat_map. intros k _. unfold prep_one.
+  destruct (negb _ || ow); reflexivity.
+Qed.
+
+Lemma body24_shape : forall n w o ow corrupt, forallb shank_step (body24 n w o ow corrupt) = true.
+Proof.
+  intros. unfold body24. repeat rewrite forallb_app. repeat (apply andb_true_iff; split).
+  - unfold wins24. destruct w; [reflexivity|]. rewrite forallb_app. apply andb_true_iff. split; [|reflexivity].
+    apply forallb_flat_map. reflexivity.
+  - unfold metas24. rewrite forallb_app. apply andb_true_iff.
+    split; apply forallb_flat_map; reflexivity.
+  - destruct (o_post o); [|reflexivity]. unfold verify24. destruct corrupt; reflexivity.
+  - destruct (o_comp o); [|reflexivity]. unfold comp24. apply forallb_flat_map. intros k _.
+    rewrite forallb_app. rewrite !comp_steps_shape. reflexivity.
+Qed.
+
+Lemma pre24_shape : forall n w o ow corrupt fs,
+  forallb shank_step (prep24 ow fs n ++ body24 n w o ow corrupt) = true.
+Proof. intros. rewrite forallb_app, prep24_shape, body24_shape. reflexivity. Qed.
+
+(* ---- write_meta_data steps only ever make paths Complete ---------------------- *)
+Lemma writemeta_list_post : forall e ks rs rs',
+  exec (flat_map (fun k => [SWriteMeta (Shank k e)]) ks) rs = (rs', None) ->
+  (forall q, r_fs rs q = Complete -> r_fs rs' q = Complete) /\
+  (forall k, In k ks -> r_fs rs' (PFile (Shank k e) FMeta) = Complete) /\
+  r_checked rs' = r_checked rs.
+Proof.
+  intros e. induction ks as [|k ks IH]; intros rs rs' H.
+  - cbn in H. inversion H; subst. repeat split; auto. intros k [].
+  - cbn [flat_map app] in H. apply exec_cons_ok in H as [rs1 [Hs Hx]].
+    cbn in Hs. destruct (present _ _); [|discriminate]. inversion Hs; subst; clear Hs.
+    destruct (IH _ _ Hx) as [Hm [Hk Hc]]. cbn in *. repeat split.
+    + intros q Hq. apply Hm. cbn. unfold upd. destruct (path_eqb _ _); auto.
+    + intros k' [->|Hin]; [|auto]. apply Hm. cbn. apply upd_same.
+    + exact Hc.
+Qed.
+
+(* ---- compressing one file ------------------------------------------------------- *)
+Lemma sem_compbegin : forall o rs, r_fs rs (PFile o FBin) <> Absent ->
+  step_sem (SCompBegin o) rs = Ok (mkR (upd (r_fs rs) (PFile o FTmp) Partial) (r_checked rs)).
+Proof. intros o rs H. cbn. apply present_true in H. rewrite H. reflexivity. Qed.
+Lemma sem_compend : forall o rs, r_fs rs (PFile o FBin) = Complete ->
+  step_sem (SCompEnd o) rs =
+  Ok (mkR (upd (upd (r_fs rs) (PFile o FTmp) Complete) (PFile o FCh) Complete) (r_checked rs)).
+Proof. intros o rs H. cbn. apply complete_true in H. rewrite H. reflexivity. Qed.
+Lemma sem_rename : forall o rs, r_fs rs (PFile o FTmp) <> Absent ->
+  step_sem (SRename o) rs =
+  Ok (mkR (upd (upd (r_fs rs) (PFile o FCbin) (r_fs rs (PFile o FTmp))) (PFile o FTmp) Absent) (r_checked rs)).
+Proof. intros o rs H. cbn. apply present_true in H. rewrite H. reflexivity. Qed.
+Lemma sem_unlink_present : forall p mok rs, r_fs rs p <> Absent ->
+  step_sem (SUnlink p mok) rs = Ok (mkR (upd (r_fs rs) p Absent) (r_checked rs)).
+Proof. intros p mok rs H. cbn. unfold unlink. apply present_true in H. rewrite H. reflexivity. Qed.
+Lemma sem_unlink_mok : forall p rs, exists rs',
+  step_sem (SUnlink p true) rs = Ok rs' /\ r_checked rs' = r_checked rs /\ r_fs rs' p = Absent /\ forall q, q <> p -> r_fs rs' q = r_fs rs q.
+Proof.
+  intros p rs. cbn. unfold unlink. destruct (present (r_fs rs) p) eqn:E.
+  - eexists; split; [reflexivity|]. cbn. repeat split; [apply upd_same | intros; apply upd_other; auto].
+  - exists rs. apply present_false in E. auto.
+Qed.
+
+Definition comp_core (o : owner) : list step :=
+  [SCompBegin o; SCompEnd o; SRename o; SUnlink (PFile o FBin) false].
+
+(* from a complete .bin the four core steps always succeed and leave .cbin + .ch *)
+Lemma comp_core_run : forall o rs, r_fs rs (PFile o FBin) = Complete ->
+  exists rs', exec (comp_core o) rs = (rs', None) /\ r_checked rs' = r_checked rs /\   r_fs rs' (PFile o FCbin) = Complete /\ r_fs rs' (PFile o FCh) = Complete /\   r_fs rs' (PFile o FBin) = Absent /\ r_fs rs' (PFile o FTmp) = Absent /\   forall q, (forall f, q <> PFile o f) -> r_fs rs' q = r_fs rs q.
+Proof.
+  intros o rs Hb. unfold comp_core. cbn [exec].
+  rewrite sem_compbegin by (rewrite Hb; discriminate).
+  rewrite sem_compend by (cbn; upd_simp; exact Hb).
+  rewrite sem_rename by (cbn; upd_simp; discriminate).
+  rewrite sem_unlink_present by (cbn; upd_simp; rewrite Hb; discriminate).
+  eexists; split; [reflexivity|]. cbn. upd_simp. repeat split; auto.
+  intros q Hq. upd_simp. reflexivity.
+Qed.
+
+Lemma comp_steps_run : forall ow o rs, r_fs rs (PFile o FBin) = Complete ->
+  exists rs', exec (comp_steps ow o) rs = (rs', None) /\ r_checked rs' = r_checked rs /\   r_fs rs' (PFile o FCbin) = Complete /\ r_fs rs' (PFile o FCh) = Complete /\   r_fs rs' (PFile o FBin) = Absent /\ r_fs rs' (PFile o FTmp) = Absent /\   forall q, (forall f, q <> PFile o f) -> r_fs rs' q = r_fs rs q.
+Proof.
+  intros ow o rs Hb. unfold comp_steps.
+  change [SCompBegin o; SCompEnd o; SRename o; SUnlink (PFile o FBin) false] with (comp_core o).
+  destruct ow; cbn [app].
+  - destruct (sem_unlink_mok (PFile o FCbin) rs) as [rs1 [Hs [Hc [_ Hf]]]].
+    destruct (comp_core_run o rs1) as [rs' [Hx [Hc' [H1 [H2 [H3 [H4 H5]]]]]]].
+    { rewrite Hf by congruence. exact Hb. }
+    exists rs'. cbn [exec]. rewrite Hs. rewrite Hx.
+    repeat split; auto; try congruence. intros q Hq. rewrite H5 by auto. apply Hf. apply Hq.
+  - apply comp_core_run. exact Hb.
+Qed.
+
+Lemma comp_one_post : forall ow o rs rs',
+  exec (comp_steps ow o) rs = (rs', None) ->
+  r_fs rs (PFile o FBin) = Complete ->
+  r_fs rs' (PFile o FCbin) = Complete /\ r_fs rs' (PFile o FCh) = Complete /\ r_fs rs' (PFile o FBin) = Absent /\ r_fs rs' (PFile o FTmp) = Absent.
+Proof.
+  intros ow o rs rs' H Hb. destruct (comp_steps_run ow o rs Hb) as [rs2 [Hx [_ [H1 [H2 [H3 [H4 _]]]]]]].
+  rewrite Hx in H. inversion H; subst. auto.
+Qed.
+
+Lemma touches_comp_other : forall ow o s p,
+  In s (comp_steps ow o) -> (forall f, p <> PFile o f) -> touches s p = false.
+Proof.
+  intros ow o s p Hin Hp. unfold comp_steps in Hin.
+  destruct ow; cbn in Hin; intuition; subst; cbn;
+    repeat rewrite path_eqb_neq by auto; reflexivity.
+Qed.
+
+Lemma touches_comp_meta : forall ow o s o', In s (comp_steps ow o) -> touches s (PFile o' FMeta) = false.
+Proof.
+  intros ow o s o' Hin. unfold comp_steps in Hin.
+  destruct ow; cbn in Hin; intuition; subst; cbn;
+    repeat rewrite path_eqb_neq by congruence; reflexivity.
+Qed.
+
+Definition compk (ow : bool) (k : nat) : list step :=
+  comp_steps ow (Shank k Ap) ++ comp_steps ow (Shank k Lf).
+
+Lemma touches_compk_other : forall ow k s p,
+  In s (compk ow k) -> (forall e f, p <> PFile (Shank k e) f) -> touches s p = false.
+Proof.
+  intros ow k s p Hin Hp. apply in_app_or in Hin as [H|H];
+    eapply touches_comp_other; eauto.
+Qed.
+
+Lemma compk_post : forall ow k rs rs',
+  exec (compk ow k) rs = (rs', None) ->
+  r_fs rs (PFile (Shank k Ap) FBin) = Complete ->
+  r_fs rs' (PFile (Shank k Ap) FCbin) = Complete /\ r_fs rs' (PFile (Shank k Ap) FCh) = Complete.
+Proof.
+  intros ow k rs rs' H Hb. unfold compk in H. apply exec_app_ok in H as [rs1 [H1 H2]].
+  destruct (comp_one_post _ _ _ _ H1 Hb) as [Hc [Hh _]].
+  split; (erewrite exec_frame; [| exact H2 |]);
+    try assumption; intros s Hs; eapply touches_comp_other; eauto; congruence.
+Qed.
+
+Lemma comp_list_post : forall ow ks rs rs',
+  NoDup ks -> exec (flat_map (compk ow) ks) rs = (rs', None) ->
+  (forall k, In k ks -> r_fs rs (PFile (Shank k Ap) FBin) = Complete) ->
+  forall k, In k ks ->
+    r_fs rs' (PFile (Shank k Ap) FCbin) = Complete /\ r_fs rs' (PFile (Shank k Ap) FCh) = Complete.
+Proof.
+  intros ow. induction ks as [|k0 ks IH]; intros rs rs' Hnd H Hb k Hin; [destruct Hin|].
+  cbn [flat_map] in H. apply exec_app_ok in H as [rs1 [H1 H2]]. inversion Hnd; subst.
+  destruct Hin as [->|Hin].
+  - destruct (compk_post _ _ _ _ H1 (Hb k (or_introl eq_refl))) as [Hc Hh].
+    split; (erewrite exec_frame; [| exact H2 |]); try assumption;
+      intros s Hs; apply in_flat_map in Hs as [k' [Hk' Hs]];
+      eapply touches_compk_other; eauto; intros e f Heq; inversion Heq; subst; contradiction.
+  - apply (IH rs1 rs'); auto. intros k' Hk'.
+    erewrite exec_frame; [apply Hb; right; exact Hk' | exact H1 |].
+    intros s Hs. eapply touches_compk_other; eauto. intros e f Heq; inversion Heq; subst; contradiction.
+Qed.
+
+Lemma comp24_meta_frame : forall ow n rs rs' e o,
+  exec (comp24 ow n) rs = (rs', e) -> r_fs rs' (PFile o FMeta) = r_fs rs (PFile o FMeta).
+Proof.
+  intros. eapply exec_frame; eauto. intros s Hs. unfold comp24 in Hs.
+  apply in_flat_map in Hs as [k [_ Hs]]. apply in_app_or in Hs as [Hs|Hs]; eapply touches_comp_meta; eauto.
+Qed.
+
+Lemma all_ap_complete_spec : forall fs n,
+  all_ap_complete fs n = true -> forall k, (k < n)%nat -> fs (PFile (Shank k Ap) FBin) = Complete.
+Proof.
+  intros fs n H k Hk. unfold all_ap_complete in H. rewrite forallb_forall in H.
+  apply complete_true. apply H. apply in_seq. lia.
+Qed.
+
+Lemma no_verify_in : forall l, forallb (fun s => negb (is_verify s)) l = true ->
+  forall s, In s l -> is_verify s = false.
+Proof. intros l H s Hs. rewrite forallb_forall in H. apply negb_true_iff. auto. Qed.
+
+Lemma prep24_noverify : forall ow fs n, forallb (fun s => negb (is_verify s)) (prep24 ow fs n) = true.
+Proof.
+  intros. unfold prep24. apply forallb_flat_map. intros k _. unfold prep_one.
+  destruct (negb _ || ow); reflexivity.
+Qed.
+Lemma wins24_noverify : forall n w, forallb (fun s => negb (is_verify s)) (wins24 n w) = true.
+Proof.
+  intros. unfold wins24. destruct w; [reflexivity|]. rewrite forallb_app. apply andb_true_iff.
+  split; [apply forallb_flat_map|]; reflexivity.
+Qed.
+Lemma comp24_noverify : forall ow n, forallb (fun s => negb (is_verify s)) (comp24 ow n) = true.
+Proof.
+  intros. unfold comp24. apply forallb_flat_map. intros k _. unfold comp_steps. destruct ow; reflexivity.
+Qed.
+
+(* the crux: if the steps before delete_NP24 ran to the end and left
+   check_completed set, every shank's ap data and metadata are complete *)
+Lemma body_checked_shanks_ok : forall n w o ow corrupt fs rs1,
+  exec (prep24 ow fs n ++ body24 n w o ow corrupt) (mkR fs false) = (rs1, None) ->
+  r_checked rs1 = true ->
+  o_post o = true /\ shanks_ok n (r_fs rs1).
+Proof.
+  intros n w o ow corrupt fs rs1 H Hck.
+  apply exec_app_ok in H as [rsP [HP H]].
+  pose proof (exec_checked _ _ _ _ HP (no_verify_in _ (prep24_noverify _ _ _))) as HcP. cbn in HcP.
+  unfold body24 in H.
+  apply exec_app_ok in H as [rsW [HW H]].
+  pose proof (exec_checked _ _ _ _ HW (no_verify_in _ (wins24_noverify _ _))) as HcW.
+  apply exec_app_ok in H as [rsM [HM H]].
+  unfold metas24 in HM. apply exec_app_ok in HM as [rsA [HA HL]].
+  destruct (writemeta_list_post _ _ _ _ HA) as [_ [HAk HAc]].
+  destruct (writemeta_list_post _ _ _ _ HL) as [HLm [_ HLc]].
+  assert (Hmeta : forall k, (k < n)%nat -> r_fs rsM (PFile (Shank k Ap) FMeta) = Complete).
+  { intros k Hk. apply HLm. apply HAk. apply in_seq. lia. }
+  assert (HcM : r_checked rsM = false) by congruence.
+  apply exec_app_ok in H as [rsV [HV HC]].
+  destruct (o_post o) eqn:Epost.
+  2:{ exfalso. cbn in HV. inversion HV; subst rsV.
+      assert (r_checked rs1 = r_checked rsM).
+      { destruct (o_comp o).
+        - eapply exec_checked; eauto. apply no_verify_in, comp24_noverify.
+        - cbn in HC. inversion HC; reflexivity. }
+      congruence. }
+  split; [reflexivity|].
+  (* the verification step succeeded on the state left by the (optional) adversary step *)
+  assert (HVpost : (forall k, (k < n)%nat -> r_fs rsV (PFile (Shank k Ap) FBin) = Complete) /\
+                   (forall o', r_fs rsV (PFile o' FMeta) = r_fs rsM (PFile o' FMeta))).
+  { unfold verify24 in HV. apply exec_app_ok in HV as [rsC [HCr HVe]].
+    cbn in HVe. destruct (all_ap_complete (r_fs rsC) n) eqn:Eall; [|discriminate].
+    inversion HVe; subst rsV; cbn. split; [apply all_ap_complete_spec; exact Eall|].
+    intros o'. eapply exec_frame; eauto. intros s Hs. destruct corrupt; cbn in Hs; [|destruct Hs].
+    destruct Hs as [<-|[]]. cbn. apply path_eqb_neq. congruence. }
+  destruct HVpost as [Hbin HmetaV].
+  destruct (o_comp o).
+  - intros k Hk. split.
+    + right. unfold comp24 in HC. change (fun k0 => comp_steps ow (Shank k0 Ap) ++ comp_steps ow (Shank k0 Lf))
+        with (compk ow) in HC.
+      eapply comp_list_post; eauto; [apply seq_NoDup | | apply in_seq; lia].
+      intros k' Hk'. apply Hbin. apply in_seq in Hk'. lia.
+    + erewrite comp24_meta_frame by eauto. rewrite HmetaV. auto.
+  - cbn in HC. inversion HC; subst rs1. intros k Hk. split; [left; auto|]. rewrite HmetaV. auto.
 Qed.
